@@ -110,11 +110,24 @@ def monitor(case):
     # -- forwards: an injective assignment forward -> delivered request such that the
     #    content is copied and the address is PAddr + offset for a PAddr delivered in
     #    answer to a lookup of that request's own page and PID
-    paddrs = collections.defaultdict(list)   # (vpage, pid) -> [(index, paddr)]
+    paddrs = collections.defaultdict(list)   # (vpage, pid) -> [(reply index, paddr, index at which the lookup was retrieved)]
     for i, x in replies:
         if x['rspto'] in lookups:
-            q = lookups[x['rspto']][1]
-            paddrs[(q['vaddr'], q['pid'])].append((i, x['paddr']))
+            iq, q = lookups[x['rspto']]
+            paddrs[(q['vaddr'], q['pid'])].append((i, x['paddr'], iq))
+    # a discard delivered at index d and acknowledged at index D: every lookup retrieved before d was issued
+    # before the discard was taken and died with it; a request delivered after D is accepted only after the
+    # restart and waits on a lookup issued later, so an answer to one of those dead lookups must never be
+    # the source of its translation (at_paddr_correct: the reply used has RespondTo = the ID of the lookup
+    # the request waits on)
+    ctl0 = [i for i, e in enumerate(ev) if e['e'] == 'dc' and e.get('acc')]
+    acks0 = [i for i, e in enumerate(ev) if e['e'] == 'rc' and e.get('got')]
+    discards = [(d, acks0[n]) for n, d in enumerate(ctl0)
+                if n < len(acks0) and ev[d]['msg']['kind'] == 'KCtrl' and ev[d]['msg']['flags'] & 1]
+
+    def dead_before(ir):
+        """lookups retrieved before this index cannot serve a request delivered at index ir"""
+        return max([d for d, D in discards if D < ir], default=-1)
 
     def admissible(ib, b, ir, r):
         if ir > ib or not content_equal(b, r) or b['pid'] != 0 or b['src'] != 2:
@@ -122,7 +135,9 @@ def monitor(case):
         if b['dst'] != 100 + (b['addr'] >> k) % cfg['nmem']:
             return False
         off = r['addr'] & ((1 << k) - 1)
-        return any(ix < ib and b['addr'] == ((pa + off) & M64) for ix, pa in paddrs[(page(r['addr']), r['pid'])])
+        dead = dead_before(ir)
+        return any(ix < ib and iq > dead and b['addr'] == ((pa + off) & M64)
+                   for ix, pa, iq in paddrs[(page(r['addr']), r['pid'])])
 
     cands = []
     for ib, b in fwd:
